@@ -909,7 +909,7 @@ def rule_adj(chk, fm, px, lx):
                        "binary operator is separated from both operands" if before_ok and after_ok else
                        "binary operator %s is emitted without a separating space (%s): adjacent operator characters can merge"
                        % (parent[1], "before" if not before_ok else "after"), where(sub))
-    chk.floor("C09.floor/adjacency-instances", n, 60, "adjacency instances examined")
+    chk.floor("C09.floor/adjacency-instances", n, 30, "adjacency instances examined")
 
 
 def rule_lit(chk, fm):
